@@ -5,8 +5,13 @@
   statement of the package's goal is not proved it is kept visible as a `def … : Prop` next to the strongest partial result,
   with what is missing. Helper lemmas: GM/Proof/ConvertX.lean.
 -/
+import GM.Proof.ConvertXRect
 import GM.Proof.ConvertX
 import GM.Proof.ConvertXRel
+import GM.Proof.ConvertXTotal
+import GM.Proof.ConvertXStrikeDoc
+import GM.Proof.ConvertXTaskDoc
+import GM.Proof.ConvertXMon
 import GM.Proof.Table
 
 namespace GM.Props.ConvertX
@@ -22,21 +27,39 @@ theorem convertx_off_is_core (uc : List (Nat × (Bool × Bool))) (o : ROpts) (sr
 
 /-! ### no fuel exhaustion -/
 
-/-- the full statement: `convertX` never ends in `blocks loop` / `inlines loop`, for any member set. PROVED for the member
-    sets without an inline member (`convertx_never_loops_partial`), and for EVERY member set as far as the block phase goes
-    (`block_phase_x_terminates`) and relative to `InlineNoLoop c` (`convertx_never_loops_of`). Missing for Strikethrough /
-    TaskList: `InlineNoLoop c` — the totality proof of the inline loop (GM.Proof.InlinesLoopTotal.scan_total / lineLoop_total,
-    stated for the default parser list) carried over to the open table `lineLoopX`, plus the parser contracts `PContract` of
-    `parseTask` (advances inside or to the end of its line), `parseStrike` (as `emphasis_contract`) and — for Strikethrough —
-    of the link parser over `processDelimitersG true` (GM.Proof.InlinesLink, redone over the generalised OnMatch).
-    BLOCKER: that proof's loop invariant (`Ctx.appendPlain`) wants every appended node `wf`, and `wf` demands emphasis levels
-    1–2 — which the representations of Strikethrough / TaskCheckBox inside GM.Inl.Node (levels 0, −1, −2) violate on purpose
-    (`parseBlock_wf` is what shows the default parsers cannot produce them). It goes away with real constructors in
-    GM.Inl.Node. In the tie no run of any member set ever answered `loop`. -/
+/-- the full statement: `convertX` never ends in `blocks loop` / `inlines loop`, for any member set. PROVED (round 2):
+    `convertx_never_loops` below, `conservative…`-style name `convertx_never_loops_all`. The blocker named in round 1 — the loop
+    invariant of the totality proof wants every appended node `wf`, and `wf` demands emphasis levels 1–2, which the
+    representations of Strikethrough / TaskCheckBox inside GM.Inl.Node violate on purpose — is circumvented by reading the
+    invariant off the NORMALISED children (`Ctx.normed`: all levels relabelled into {1, 2}); the inline model is blind to levels
+    (GM.Proof.ConvertXRelv). -/
 def ConvertXNeverLoops : Prop :=
   ∀ (c : XCfg) uc o src (e : Err), convertX c uc o src = .error e → e.isLoop = false
 
-/-- `convertx_never_loops` for the member sets {} and {Table}: HTML, or an error that is not fuel exhaustion. -/
+/-- `convertx_never_loops` — for EVERY member set, every source, renderer option set and Unicode class assignment: `convertX`
+    answers HTML or an error that is not fuel exhaustion (`blocks loop` / `inlines loop`). The inline phase: the totality proof
+    of the default inline loop carried over to the open trigger table (GM.Proof.ConvertXTotal: `scanX_total`, `lineLoopX_total`),
+    with the contracts of the strikethrough and the task-checkbox parser proved directly and the contract of the link parser
+    over both delimiter processors obtained from GM.Proof.InlinesLink.link_contract through a relabelling of emphasis levels
+    (GM.Proof.ConvertXRelv: the inline model is blind to levels; the generalised ProcessDelimiters / link parser are the default
+    ones up to a relabelling that sends the representation of a Strikethrough made by `c` tildes to level `c`). -/
+theorem convertx_never_loops (c : XCfg) (uc : List (Nat × (Bool × Bool))) (o : ROpts) (src : Bytes) (e : Err)
+    (h : convertX c uc o src = .error e) : e.isLoop = false :=
+  convertX_noLoop (GM.Proof.ConvertXTotal.inlineNoLoop_all c) uc o src h
+
+/-- `ConvertXNeverLoops`, proved -/
+theorem convertx_never_loops_all : ConvertXNeverLoops := fun c uc o src e h => convertx_never_loops c uc o src e h
+
+/-- the inline loop of a block under ANY member set FINISHES behind the run-time check (no fuel exhaustion, no Go panic, no
+    broken modelling invariant in the loop; what remains of parseBlock is the final ProcessDelimiters, which answers a child
+    list or `pre`) -/
+theorem inline_loop_x_total (c : XCfg) (inItem : Bool) (env : GM.Inl.Env) (src : Bytes) (segs : List Segment)
+    (W : GM.Spec.WFSegs src segs) (Z : ∀ s ∈ segs, s.padding = 0) :
+    ∃ rd st', BlockReader.new src segs = .ok rd ∧
+      GM.Inl.lineLoopX env (inlineTbl c inItem) (GM.Inl.blockFuel src segs) false { rd := rd } = .ok st' :=
+  GM.Proof.ConvertXTotal.lineLoopX_cfg_total c inItem W Z env
+
+/-- the same for the member sets {} and {Table} (first delivery; subsumed by `convertx_never_loops`) -/
 theorem convertx_never_loops_partial (c : XCfg) (hs : c.strikethrough = false) (ht : c.tasklist = false)
     (uc : List (Nat × (Bool × Bool))) (o : ROpts) (src : Bytes) (e : Err) (h : convertX c uc o src = .error e) :
     e.isLoop = false :=
@@ -57,7 +80,8 @@ theorem table_transformer_admissible (src : Bytes) : GM.Blocks.PTOK (GM.TableX.t
 
 /-! ### C11 on the composed model -/
 
-/-- the full statements (C11 at whole-document level, on the model) -/
+/-- the full statements (C11 at whole-document level, on the model): all three PROVED in round 2 — `conservative_tasklist`,
+    `conservative_strikethrough`, `conservative_table` below -/
 def ConservativeTasklist : Prop :=
   ∀ (c : XCfg) uc o src, (91 : UInt8) ∉ src →
     convertX { c with tasklist := true } uc o src = convertX { c with tasklist := false } uc o src
@@ -82,6 +106,18 @@ theorem convertx_conservative_tasklist (c : XCfg) (hs : c.strikethrough = false)
     convertX { c with tasklist := true } uc o src = convertX { c with tasklist := false } uc o src :=
   convertX_task c hs uc o src hsrc
 
+/-- `ConservativeTasklist`, proved: the same for EVERY member set (Strikethrough on, too): the checkbox parser is never
+    consulted (`lineLoopX_eq2` on the open table with the contracts of GM.Proof.ConvertXTotal), and a member set without
+    TaskList never builds the representation of a TaskCheckBox (`parseBlockG_fixS`: the inline phase of any member set simulates
+    itself under a relabelling that fixes the levels its members build) -/
+theorem convertx_conservative_tasklist_all (c : XCfg) (uc : List (Nat × (Bool × Bool))) (o : ROpts) (src : Bytes)
+    (hsrc : (91 : UInt8) ∉ src) :
+    convertX { c with tasklist := true } uc o src = convertX { c with tasklist := false } uc o src :=
+  GM.Proof.ConvertXTaskDoc.convertX_task_all c uc o src hsrc
+
+theorem conservative_tasklist : ConservativeTasklist :=
+  fun c uc o src h => convertx_conservative_tasklist_all c uc o src h
+
 /-- the same at phase level: the block phase is the same, and behind the run-time check the inline children of EVERY block
     (any line list) are the same -/
 theorem convertx_conservative_tasklist_phases (c : XCfg) (hs : c.strikethrough = false) (src : Bytes)
@@ -92,16 +128,38 @@ theorem convertx_conservative_tasklist_phases (c : XCfg) (hs : c.strikethrough =
         inlineLines { c with tasklist := false } true env src inItem lines :=
   ⟨rfl, fun env inItem lines => inlineLines_task_unused c hs env src hsrc inItem lines⟩
 
+/-- `convertx_conservative_strikethrough` — C11 AT WHOLE-DOCUMENT LEVEL on the model, for EVERY member set (TaskList / Table on or
+    off): a source without `~` converts to the same HTML — or the same error outcome — with and without Strikethrough, for
+    every renderer option set and Unicode class assignment. Composed from: (1) the strikethrough parser is never consulted
+    (`lineLoopX_eq2`: the open-table loop does not look at a table entry whose byte does not occur in the source; the peeked
+    lines are slices of the source by the loop invariant of the totality proof, GM.Proof.ConvertXTotal); (2) no `~` delimiter
+    ever stands among `parent`'s children (`NT`, kept by every parser of the table), and on such children ProcessDelimiters and
+    the link parser over both delimiter processors ARE the default ones (`processDelimitersG_NT`, `parseLinkG_eq`), so the
+    loops over the two tables are equal step by step (`lineLoopX_sim` with the identity relabelling); (3) a member set without
+    Strikethrough never builds the representation of a Strikethrough node (`parseBlockG_fix`: its inline phase simulates itself
+    under the relabelling that moves the levels −3 / −4, so its result is a fixed point), hence decoding does not depend on the
+    flag; (4) the renderer reads `Exts` only through `handled`, on a tree without Strikethrough nodes. -/
+theorem convertx_conservative_strikethrough (c : XCfg) (uc : List (Nat × (Bool × Bool))) (o : ROpts) (src : Bytes)
+    (hsrc : (126 : UInt8) ∉ src) :
+    convertX { c with strikethrough := true } uc o src = convertX { c with strikethrough := false } uc o src :=
+  GM.Proof.ConvertXStrikeDoc.convertX_strike c uc o src hsrc
+
+/-- `ConservativeStrikethrough`, proved -/
+theorem conservative_strikethrough : ConservativeStrikethrough :=
+  fun c uc o src h => convertx_conservative_strikethrough c uc o src h
+
+/-- the same at block level: behind the run-time check the inline children of EVERY block are the same -/
+theorem convertx_conservative_strikethrough_phases (c : XCfg) (src : Bytes) (hsrc : (126 : UInt8) ∉ src)
+    (env : GM.Inl.Env) (inItem : Bool) (lines : List Segment) :
+    inlineLines { c with strikethrough := true } true env src inItem lines =
+      inlineLines { c with strikethrough := false } true env src inItem lines :=
+  GM.Proof.ConvertXStrikeDoc.inlineLines_strike c env src hsrc inItem lines
+
 /-- the trigger table of a member set with the entry of `~` emptied -/
 def tblWithoutTilde (c : XCfg) (inItem : Bool) (b : UInt8) : List GM.Inl.XIp :=
   if b == 126 then [] else inlineTbl c inItem b
 
-/-- `convertx_conservative_strikethrough`, byte-loop level (any member set): on a line without `~` the byte loop of
-    parseBlock never consults the strikethrough parser — the loop over the member set's table is the loop over the table
-    with the entry of `~` emptied, from every state. Missing for `ConservativeStrikethrough`: (1) every peeked line is a
-    slice of the source (the open-table loop invariant, see `ConvertXNeverLoops`); (2) `processDelimitersG true` is
-    `processDelimiters` on children without a `~` delimiter and the link parser keeps that invariant; (3) no emphasis node
-    of level 0 (the representation of Strikethrough) in the default model; (4) `render` and `Exts.strike`. -/
+/-- byte-loop level (first delivery; subsumed): on a line without `~` the byte loop never consults the strikethrough parser -/
 theorem convertx_conservative_strikethrough_partial (c : XCfg) (env : GM.Inl.Env) (inItem : Bool) (line : Bytes)
     (hl : (126 : UInt8) ∉ line) (i : Nat) (s : GM.Inl.Scan) :
     GM.Inl.scanX env (inlineTbl c inItem) line i s = GM.Inl.scanX env (tblWithoutTilde c inItem) line i s :=
@@ -110,20 +168,28 @@ theorem convertx_conservative_strikethrough_partial (c : XCfg) (env : GM.Inl.Env
     simp [tblWithoutTilde, this])
 
 /-- `convertx_conservative_table` — C11 AT WHOLE-DOCUMENT LEVEL on the model, for EVERY member set (Strikethrough / TaskList
-    on or off): a source without '-' converts to the same HTML — or the same error outcome — with and without Table, for
-    every renderer option set and Unicode class assignment; the only other possibility is that the table transformer's domain
-    monitor answers `blocks pre` (a paragraph line outside the source; never in the tie, and excluded for well-formed lines by
-    the check `guardedTransform` makes on the same paragraph just before). Composed from `table_needs_dash` (GM.Props.C11: the
-    transformer returns the state unchanged), the monotonicity of the block driver `runT` in its transformer list
-    (GM.Proof.ConvertXRel: a relation closed under bind from every state, through all thirteen driver functions: same node
-    store, context, reader), "no node decodes as a table node on a source without '-'" (the witness of GM.Model.ExtTableX, so
-    the tree, the escaped-pipe list and every block's inline phase are the same) and "the renderer reads `Exts` only through
-    `handled`" on a tree without table kinds. Missing for `ConservativeTable`: the monitor unreachable. -/
+    on or off), WITHOUT proviso: a source without '-' converts to the same HTML — or the same error outcome — with and without
+    Table, for every renderer option set and Unicode class assignment. Composed from `table_needs_dash` (GM.Props.C11: the
+    transformer returns the state unchanged), "the transformer's domain monitor cannot fire behind the guarded link-reference
+    transformer" (GM.Proof.ConvertXMon.guarded_post: `guardedTransform` leaves the reader alone and leaves the paragraph a
+    suffix — `transformer_removes_front` — of lines it has just checked on that reader's source), the monotonicity of the block
+    driver `runT` in its transformer list (GM.Proof.ConvertXRel, through all thirteen driver functions: same node store,
+    context, reader), "no node decodes as a table node on a source without '-'" (the witness of GM.Model.ExtTableX, so the tree,
+    the escaped-pipe list and every block's inline phase are the same) and "the renderer reads `Exts` only through `handled`" on
+    a tree without table kinds. -/
 theorem convertx_conservative_table (c : XCfg) (uc : List (Nat × (Bool × Bool))) (o : ROpts) (src : Bytes)
     (h : (45 : UInt8) ∉ src) :
-    convertX { c with table := true } uc o src = convertX { c with table := false } uc o src ∨
-    convertX { c with table := true } uc o src = .error (.blocks .pre) :=
-  GM.Proof.ConvertXRel.convertX_table c uc o src h
+    convertX { c with table := true } uc o src = convertX { c with table := false } uc o src :=
+  GM.Proof.ConvertXMon.convertX_table_guarded c uc o src h
+
+/-- `ConservativeTable`, proved -/
+theorem conservative_table : ConservativeTable := fun c uc o src h => convertx_conservative_table c uc o src h
+
+/-- the unguarded composition keeps the proviso: equal, or the transformer's domain monitor answers `blocks pre` -/
+theorem convertx_conservative_table_unguarded_blockphase (c : XCfg) (src : Bytes) (h : (45 : UInt8) ∉ src) :
+    blockPhaseX { c with table := true } false src = blockPhaseX { c with table := false } false src ∨
+    blockPhaseX { c with table := true } false src = .error .pre :=
+  GM.Proof.ConvertXRel.blockPhaseX_table_no_dash c false src h
 
 /-- the same for the block phase alone (guarded or not): exactly the state — node store, parse context with the reference
     map, reader — or the error of the block phase without Table, or `pre` -/
@@ -140,12 +206,43 @@ theorem convertx_conservative_table_partial (src : Bytes) (h : (45 : UInt8) ∉ 
 /-! ### C17 on the composed model -/
 
 /-- the full statement: every Table node of the tree `convertX` hands to the renderer is rectangular (`rectB`: one header
-    row first, ≥ 1 column, every row as many TableCells as the header). Evaluated by the driver on every document with a table
-    of the tie (`convertx rect`, a Lean-defined oracle: always `ok`). Missing: `buildTable` writes the model table into the
-    node store as it is (fresh ids, `appendChild` on fresh nodes) and the block driver never changes those nodes afterwards
-    (their ids are not on the open-block stack), so `treeOf` reads back `t.children`; `docTreeX` keeps child counts. -/
+    row first, ≥ 1 column, every row as many TableCells as the header). NOT proved; `tables_rectangular_of_store` reduces it to
+    a statement about the node store the block phase ends in. Evaluated by the driver on every document with a table of the
+    tie (`convertx rect`, a Lean-defined oracle on the output tree AND on the store: always `ok`). -/
 def TablesRectangular : Prop :=
   ∀ (c : XCfg) uc src t, parseDocX c true uc src = .ok t → rectB t = true
+
+/-- what is missing for `TablesRectangular`, exactly (`GM.Proof.ConvertXRect.StoreTablesRect`): the block tree `treeOf` reads
+    out of the store the block phase (with the table paragraph transformer) ends in is rectangular in the store's encoding
+    (`GM.ConvertX.rectT`: a node that decodes as a Table has no lines, its children decode as one TableHeader and TableRows,
+    every row has as many children as the header, all of them decode as TableCells). `buildTable` writes exactly that
+    (`convertx_tables_rectangular_partial` for the counts); what is not proved is the FRAME property of the block driver —
+    the records of these nodes are never written again, and `treeOf`'s fuel exceeds the depth. -/
+abbrev StoreTablesRect : Prop := GM.Proof.ConvertXRect.StoreTablesRect
+
+/-- `tables_rectangular_of_store` (C17 on the composed OUTPUT tree, the tree half): for every member set, source and class
+    assignment, if the store is rectangular then so is the tree the renderer receives. `docTreeX` keeps child counts
+    (`docTreesX` is a map), gives every node the decoded kind (`blockKindX`), gives a Table / TableHeader / TableRow node no
+    inline children, and inline subtrees contain no table kind; without the member no node has a table kind at all. -/
+theorem tables_rectangular_of_store (H : StoreTablesRect) : TablesRectangular :=
+  fun c uc src t h => GM.Proof.ConvertXRect.parseDocX_rect H c uc src t h
+
+/-- the tree half for one tree: `rectT` of a block tree ⇒ `rectB` of what `docTreeX` makes of it -/
+theorem doc_tree_keeps_rectangular (c : XCfg) (hc : c.table = true) (g : Bool) (env : GM.Inl.Env) (src : Bytes)
+    (escs : List Int) (inItem : Bool) (t : GM.Blocks.Tree) (x : GM.Node) (hr : rectT src t = true)
+    (h : docTreeX c g env src escs inItem t = .ok x) : rectB x = true :=
+  GM.Proof.ConvertXRect.docTreeX_rect c hc g env src escs inItem t x hr h
+
+/-- TESTS on literals (kernel-evaluated): `rectT` on hand-built block trees over the source `-` (the witness): a 2 x 2 table; a
+    body row that is one cell short; no header; a Table node without children under a Document; a `thematicBreak` record
+    whose witness fails (source `a`) is not a Table node at all -/
+private def tN (tag : Nat) : GM.Blocks.Node := { kind := .thematicBreak, htmlType := tag, offset := 0 }
+private def cellT : GM.Blocks.Tree := .node (tN GM.TableX.tagCell) []
+example : rectT [45] (.node (tN GM.TableX.tagTable) [.node (tN GM.TableX.tagHeader) [cellT, cellT], .node (tN GM.TableX.tagRow) [cellT, cellT]]) = true := by decide +kernel
+example : rectT [45] (.node (tN GM.TableX.tagTable) [.node (tN GM.TableX.tagHeader) [cellT, cellT], .node (tN GM.TableX.tagRow) [cellT]]) = false := by decide +kernel
+example : rectT [45] (.node (tN GM.TableX.tagTable) [.node (tN GM.TableX.tagRow) [cellT], .node (tN GM.TableX.tagRow) [cellT]]) = false := by decide +kernel
+example : rectT [45] (.node { kind := .document } [.node (tN GM.TableX.tagTable) []]) = false := by decide +kernel
+example : rectT [97] (.node (tN GM.TableX.tagTable) []) = true := by decide +kernel
 
 /-- `convertx_tables_rectangular`, transformer level: whatever paragraph the table transformer of the composed model is
     called on, the table it builds nodes for (`GM.Table.transform`'s, handed to `buildTable`) has ≥ 1 column, a header with
@@ -176,7 +273,7 @@ example : ((GM.Text.BlockReader.new [126, 97, 126, 10] [{ start := 0, stop := 4 
 
 /-- TEST: OnMatch of a `~` opener builds the representation of Strikethrough, of a `*` opener an Emphasis -/
 example : GM.Inl.onMatch true { seg := ⟨0, 1, 0, false⟩, canOpen := true, canClose := false, length := 1, origLength := 1, char := 126 } 1 [] =
-    GM.Inl.strikeNode [] := rfl
+    GM.Inl.strikeNode 1 [] := rfl
 
 /-- the hypotheses are satisfiable: sources without the trigger bytes, a state without '-' -/
 example : (91 : UInt8) ∉ ([97, 10] : Bytes) := by decide
